@@ -32,6 +32,32 @@ pub struct Mix {
     pub valid_only: bool,
 }
 
+pub const DWARF_TAG: &str = "+synth-dwarf";
+
+/// Does the input carry .debug sections, and are they the harness's own well-formed ones?
+pub fn debug_status(source: &str, bytes: &[u8]) -> (bool, bool) {
+    let has = wasmsplit::customs(bytes).map(|c| c.iter().any(|(n, _)| n.starts_with(b".debug"))).unwrap_or(true);
+    (has, has && source.ends_with(DWARF_TAG))
+}
+
+/// With probability num/den attach synthesised well-formed DWARF to a valid, DWARF-free module.
+pub fn maybe_attach_dwarf(p: Picked, rng: &mut Rng, num: u64, den: u64) -> Picked {
+    if !rng.chance(num, den) {
+        return p;
+    }
+    let (has, _) = debug_status(&p.iref.source, &p.bytes);
+    if has || crate::validator::validate(&p.bytes, false).is_err() {
+        return p;
+    }
+    match crate::dwarfgen::attach(&p.bytes) {
+        Some(b) => {
+            let src = format!("{}{}", p.iref.source.chars().take(400).collect::<String>(), DWARF_TAG);
+            Picked { iref: input_ref(&src, &b), bytes: b, recipe: p.recipe }
+        }
+        None => p,
+    }
+}
+
 pub fn pick(env: &Env, rng: &mut Rng, mix: &Mix) -> Picked {
     for _ in 0..50 {
         let r = rng.below(mix.fixture + mix.dodrio + mix.generated);
